@@ -342,8 +342,9 @@ func (c *codegen) analyzeFuncAndGlobalVarUsage() funcUsage {
 		importMap map[string]string
 		path      string
 	}
-	// nodeCache contains top-level function declarations.
-	nodeCache := make(map[string]declPair)
+	// nodeCache contains top-level function declarations. A name can have several
+	// declarations: a package (a file) may contain any number of `init` functions.
+	nodeCache := make(map[string][]declPair)
 	// globalVarsCache contains both used and unused declared named global vars.
 	globalVarsCache := make(map[string]globalVar)
 	// diff contains used functions that are not yet marked as "used" and those definition
@@ -411,7 +412,7 @@ func (c *codegen) analyzeFuncAndGlobalVarUsage() funcUsage {
 						c.prog.Err = fmt.Errorf("%w: %s/%d return values", ErrInvalidExportedRetCount, n.Name, retCnt)
 					}
 				}
-				nodeCache[name] = declPair{n, c.importMap, pkgPath}
+				nodeCache[name] = append(nodeCache[name], declPair{n, c.importMap, pkgPath})
 				return false // will be processed in the next stage
 			case *ast.GenDecl:
 				// Filter out generics usage.
@@ -485,39 +486,41 @@ func (c *codegen) analyzeFuncAndGlobalVarUsage() funcUsage {
 		nextGlobalVarsDiff := funcUsage{}
 		usedExpressions = usedExpressions[:0]
 		for name := range diff {
-			fd, ok := nodeCache[name]
+			fds, ok := nodeCache[name]
 			if !ok || usage[name] {
 				continue
 			}
 			usage[name] = true
 
-			pkg := c.mainPkg
-			if fd.path != "" {
-				pkg = c.packageCache[fd.path]
-			}
-			c.typeInfo = pkg.TypesInfo
-			c.currPkg = pkg
-			c.importMap = fd.importMap
-			ast.Inspect(fd.decl, func(node ast.Node) bool {
-				switch n := node.(type) {
-				case *ast.CallExpr:
-					switch t := n.Fun.(type) {
-					case *ast.Ident:
-						nextDiff[c.getIdentName(fd.path, t.Name)] = true
-					case *ast.SelectorExpr:
-						name, _ := c.getFuncNameFromSelector(t)
-						nextDiff[name] = true
-					}
+			for _, fd := range fds {
+				pkg := c.mainPkg
+				if fd.path != "" {
+					pkg = c.packageCache[fd.path]
 				}
-				return true
-			})
-			usedExpressions = append(usedExpressions, nodeContext{
-				node:      fd.decl.Body,
-				path:      fd.path,
-				importMap: c.importMap,
-				typeInfo:  c.typeInfo,
-				currPkg:   c.currPkg,
-			})
+				c.typeInfo = pkg.TypesInfo
+				c.currPkg = pkg
+				c.importMap = fd.importMap
+				ast.Inspect(fd.decl, func(node ast.Node) bool {
+					switch n := node.(type) {
+					case *ast.CallExpr:
+						switch t := n.Fun.(type) {
+						case *ast.Ident:
+							nextDiff[c.getIdentName(fd.path, t.Name)] = true
+						case *ast.SelectorExpr:
+							name, _ := c.getFuncNameFromSelector(t)
+							nextDiff[name] = true
+						}
+					}
+					return true
+				})
+				usedExpressions = append(usedExpressions, nodeContext{
+					node:      fd.decl.Body,
+					path:      fd.path,
+					importMap: c.importMap,
+					typeInfo:  c.typeInfo,
+					currPkg:   c.currPkg,
+				})
+			}
 		}
 
 		// Traverse used global vars in a separate cycle so that we're sure there's no other unrelated vars.
